@@ -4,7 +4,7 @@ EXTENDS ISMOps
 CONSTANTS Alpha, MaxL
 
 Call(x, args, start, end, bs, out, T, tlo, thi, hyp, raw) ==
-    [x |-> x, A |-> Alpha, args |-> args, start |-> start, end |-> end, bs |-> bs, out |-> out, T |-> T,
+    [x |-> x, A |-> Alpha, args |-> args, start |-> start, end |-> end, bs |-> bs, out |-> out, T |-> T, U |-> IF raw THEN 1 ELSE 1 + (bs % 2),
      tlo |-> tlo, thi |-> thi, hyp |-> hyp, raw |-> raw]
 VARIABLES pc, call, exp
 vars == <<pc, call, exp>>
